@@ -33,7 +33,7 @@ def cmdSpecCanon (comp value proto : String) (hintArgs : List String) : String :
   | "opaquepathname" => "ok " ++ hexs (canonOpaquePathname v)
   | "search" => "ok " ++ hexs (canonSearch v)
   | "hash" => "ok " ++ hexs (canonHash v)
-  | "escape" => "ok " ++ hexs (escapePatternString v)
+  | "escape" => "ok " ++ hexs (AdaVerif.Model.PatternCanon.escapePatternString v)
   | _ => "bad-op"
 
 /- pat.canon <component> <hexvalue> <hexprotocol|-> [L=<n>] [hint=..]* : the model of ada's canonicalize_* callback (Model/PatternCanon.lean) -/
@@ -67,6 +67,11 @@ def cmdPatCanon (comp value proto : String) (args : List String) : String :=
   | "opaquepathname" => "ok " ++ hexs (canonicalizeOpaquePathname v)
   | "search" => "ok " ++ hexs (canonicalizeSearch v)
   | "hash" => "ok " ++ hexs (canonicalizeHash v)
+  | "escpattern" => "ok " ++ hexs (AdaVerif.Model.PatternCanon.escapePatternString v)
+  | "escregexp" => "ok " ++ hexs (AdaVerif.Model.PatternCanon.escapeRegexpString v)
+  | "procbase" => "ok " ++ hexs (AdaVerif.Model.PatternCanon.processBaseUrlString v (unhexs proto == [0x70]))
+  | "isipv6" => if AdaVerif.Model.PatternCanon.isIpv6Address v then "ok 31" else "ok 30"
+  | "isabs" => if AdaVerif.Model.PatternCanon.isAbsolutePathname v (unhexs proto == [0x75]) then "ok 31" else "ok 30"
   | _ => "bad-op"
 
 end Driver
